@@ -6,7 +6,7 @@ export GOFLAGS=-mod=mod GOPROXY=off GOSUMDB=off GOTOOLCHAIN=local
 mkdir -p bin evidence
 (cd /repo && go1.26 build -o /verif/bin/bpf2go github.com/cilium/ebpf/cmd/bpf2go)
 # syntax-check every specification
-for f in spec/*.tla; do
+(cd spec && for f in *.tla; do
   java -cp /opt/veriftools/tla/tla2tools.jar:/opt/veriftools/tla/CommunityModules-deps.jar tla2sany.SANY "$f" >/dev/null 2>&1 || { echo "SANY failed on $f"; exit 1; }
-done
+done)
 echo setup ok
